@@ -46,11 +46,12 @@ def effective_n(call):
 
 def expected_value(call):
     n = effective_n(call)
+    base = call.get('base', 0)
     if call.get('input') == 'ndarray':
         if call.get('ndim', 1) == 2:
-            return ['nd', [[(r * 3 + j) * 2 for j in range(3)] for r in range(n)]]
-        return ['nd', [i * 2 for i in range(n)]]
-    return [ref_call(call.get('elem', 'scalar'), i) for i in range(n)]
+            return ['nd', [[(r * 3 + j + base) * 2 for j in range(3)] for r in range(n)]]
+        return ['nd', [(i + base) * 2 for i in range(n)]]
+    return [ref_call(call.get('elem', 'scalar'), i + base) for i in range(n)]
 
 
 def flatten_nd(value):
